@@ -288,7 +288,13 @@ func oracleC11(in string, r *rng, fail failFn) int {
 			// positions strictly inside the token
 			for k := 0; k < 2 && tried < 6; k++ {
 				p := t[1] + 1 + r.intn(t[2]-1)
-				v := in[:p] + "\x00" + in[p:]
+				// one NUL, or a long run of them (C11b holds for any number): a guard on the raw
+				// length of a name shows only with hundreds
+				nul := "\x00"
+				if tried == 1 {
+					nul = strings.Repeat("\x00", []int{2, 33, 257, 1100}[r.intn(4)])
+				}
+				v := in[:p] + nul + in[p:]
 				n++
 				tried++
 				if v1 := li.VerifIsXSSCtx(v, c); v1 != v0 {
